@@ -186,6 +186,15 @@ def reload (t : Table) (bs : List Backend) : Table :=
   (hostsOf bs).foldl (fun t h => tset t h (mergeHost ((tget t h).getD []) (forHost bs h)))
     (removeUnconfigured t (hostsOf bs))
 
+/-- `Reload` on a configuration file in "backends" mode (no `allowall` / `allowed` option, which the
+code refuses to switch to).  `reloadIgnoresEmptyIds` is read from the source: the pinned tree skipped
+a file whose `backends` value is empty. -/
+def reloadRaw? (t : Table) (c : RawCfg) : Option Table :=
+  if Generated.Backends.reloadIgnoresEmptyIds && c.ids = "" then some t else reload? t (normalise c)
+
+def reloadRaw (t : Table) (c : RawCfg) : Table :=
+  if Generated.Backends.reloadIgnoresEmptyIds && c.ids = "" then t else reload t (normalise c)
+
 /-! ### the pinned tree's `UpsertHost` on Go slices (witness only) -/
 
 namespace Legacy
